@@ -44,21 +44,19 @@ theorem splitPoint_bounds (n : Nat) (h : 2 ≤ n) : 0 < splitPoint n ∧ splitPo
   simp only
   split <;> omega
 
+/-- `merkle.SimpleHashFromByteSlices` (recursion on an explicit bound so that it evaluates in the
+kernel; `simpleHashFromByteSlices` instantiates the bound with the number of items). -/
+def simpleHashAux (H : Bytes → Bytes) : Nat → List Bytes → Bytes
+  | _, [] => []
+  | _, [x] => leafHash H x
+  | 0, _ => []
+  | fuel + 1, items =>
+    let k := splitPoint items.length
+    innerHash H (simpleHashAux H fuel (items.take k)) (simpleHashAux H fuel (items.drop k))
+
 /-- `merkle.SimpleHashFromByteSlices`. -/
 def simpleHashFromByteSlices (H : Bytes → Bytes) (items : List Bytes) : Bytes :=
-  match items with
-  | [] => []
-  | [x] => leafHash H x
-  | x :: y :: rest =>
-    let k := splitPoint (rest.length + 2)
-    innerHash H (simpleHashFromByteSlices H ((x :: y :: rest).take k))
-                (simpleHashFromByteSlices H ((x :: y :: rest).drop k))
-termination_by items.length
-decreasing_by
-  · have := splitPoint_bounds (rest.length + 2) (by omega)
-    simp only [List.length_take, List.length_cons]; omega
-  · have := splitPoint_bounds (rest.length + 2) (by omega)
-    simp only [List.length_drop, List.length_cons]; omega
+  simpleHashAux H items.length items
 
 /-- Go map assignment `m[k] = v` followed by `kv.Pairs.Sort()` by key: insertion into a list kept
 sorted by key, a later value for the same key replacing the earlier one. -/
